@@ -29,7 +29,14 @@ PopComplaints(e) ==
         \cup (IF Cardinality({e.rans[i] : i \in 1..Len(e.rans)}) = Len(e.rans) THEN {} ELSE {"RAN-UE-NGAP-IDs are not pairwise distinct"})
         \cup (IF e.keysEqual THEN {} ELSE {"a UE does not carry the configured K / OP / OPc"})
         \cup (IF e.capsExact THEN {} ELSE {"advertised security capability is not exactly the algorithms of the context"})
-Explain(e) == IF e.ev # "Population" THEN No("no action of the specification matches this event")
+\* the capability a context with the given algorithms advertises: octet 1 has exactly the bit of 5G-EA<enc>, octet 2 that of 5G-IA<int>
+\* (bit 8 = algorithm 0), information element 2E of length 2
+ExplainCaps(e) == FirstBad(<< <<~e.panic, "building the UE security capability panicked">>,
+                             <<e.iei = 46 /\ e.len = 2 /\ Len(e.buf) = 2, "UE security capability is not IE 2E with two octets">>,
+                             <<Len(e.buf) # 2 \/ e.buf = <<2^(7 - e.enc), 2^(7 - e.int)>>,
+                               "a context using 5G-EA" \o Str(e.enc) \o " / 5G-IA" \o Str(e.int) \o " advertises " \o Str(e.buf) \o " instead of exactly these two algorithms">> >>)
+Explain(e) == IF e.ev = "Caps" THEN ExplainCaps(e)
+              ELSE IF e.ev # "Population" THEN No("no action of the specification matches this event")
               ELSE LET c == PopComplaints(e) IN IF c = {} THEN Ok ELSE No(Str(CHOOSE x \in c : TRUE) \o " (" \o Str(Cardinality(c)) \o " complaint(s))")
 Init == l = 1 /\ bad = 0
 Next == /\ l <= Len(Trace)
